@@ -87,7 +87,8 @@ theorem wnEdge_rule (pt a b : K × K) :
   · split_ifs <;> simp_all
   · split_ifs <;> decide
 
-/-- The winding counter is the sum of the edge contributions in order. -/
+/-- The winding counter is the sum of the edge contributions in order.
+    (Unfolding lemma (one step of the recursion that defines `wnNum`).) -/
 theorem wnNum_is_edge_sum (pt a b : K × K) (rest : List (K × K)) :
     wnNum pt (a :: b :: rest) = wnEdge pt a b + wnNum pt (b :: rest) :=
   wnNum_cons_cons pt a b rest
